@@ -5,7 +5,8 @@ from ..apigen import File
 
 RULE = ("micro APIs over a grid: (response-type form) x (metadata-type form) with forms {relative | fully-qualified} x "
         "{same file | other file imported by the service's file | other file NOT imported, listed before or after the service's file}, "
-        "google.protobuf.Empty (imported by the service's file or only by another file), nested (qualified and package-relative), "
+        "google.protobuf.Empty (imported by the service's file or only by another file), nested (qualified, package-relative, and "
+        "package-relative while a top-level package of the same name exists), "
         "another package, missing, unknown (relative, qualified, leading dot), plus un-annotated Operation methods, three packages. "
         "Schema level: every sampled grid cell is decided by the real API.build and by the model (T2). End to end: a slice of the "
         "cells is generated, the emitted from_gapic arguments and operations-client properties are read with ast (T1), and the "
@@ -15,7 +16,7 @@ RULE = ("micro APIs over a grid: (response-type form) x (metadata-type form) wit
         "non-trivial = the method returns google.longrunning.Operation.")
 TRUSTED = [
     "Model/Lro.v: hand-written model of _maybe_get_lro, Address.resolve, the api_messages lookup of the second build pass, "
-    "the emitted from_gapic wrapping and operations_client property",
+    "the emitted from_gapic wrapping and operations_client property; _resolve_lro_type (as written first, then package-relative)",
     "contract (Model/Lro.v run_future): google.api_core.operation.Operation / operation_async.AsyncOperation poll GetOperation while "
     "the snapshot is not done, then unpack response with protobuf_helpers.from_any_pb / raise from_grpc_status; metadata likewise "
     "(validated on every run by T2 against the installed api_core through the emitted clients)",
@@ -34,9 +35,9 @@ OPERATION = ".google.longrunning.Operation"
 GET_OP = "/google.longrunning.Operations/GetOperation"
 
 VALID = ["rel_same", "fq_same", "rel_imported", "fq_imported", "rel_notimported", "fq_notimported", "empty", "empty_elsewhere",
-         "fq_nested", "fq_otherpkg"]
-GEN_ONLY = []
-QUIRK = ["rel_nested"]
+         "fq_nested", "fq_otherpkg", "rel_nested"]
+GEN_ONLY = ["rel_nested_shadowed"]   # both readings of the dotted name exist: decision compared model-vs-code only
+QUIRK = ["rel_nested"]               # former finding lro.nested_relative_type (fixed): a regression carries that signature
 MISSING = ["missing"]
 UNKNOWN = ["unknown_rel", "unknown_fq", "leading_dot", "rel_empty"]
 ALL_KINDS = VALID + GEN_ONLY + QUIRK + MISSING + UNKNOWN
@@ -48,7 +49,7 @@ def annotation(kind, pkg, S):
         "rel_imported": f"Imp{S}", "fq_imported": f"{pkg}.Imp{S}",
         "rel_notimported": f"Other{S}", "fq_notimported": f"{pkg}.Other{S}",
         "empty": "google.protobuf.Empty", "empty_elsewhere": "google.protobuf.Empty",
-        "fq_nested": f"{pkg}.Outer.Inner{S}", "rel_nested": f"Outer.Inner{S}",
+        "fq_nested": f"{pkg}.Outer.Inner{S}", "rel_nested": f"Outer.Inner{S}", "rel_nested_shadowed": f"Outer.Inner{S}",
         "fq_otherpkg": f"{SHARED_PKG}.Shared{S}",
         "missing": "", "unknown_rel": f"Nope{S}", "unknown_fq": f"google.example.nowhere.Thing{S}",
         "leading_dot": f".{pkg}.Local{S}", "rel_empty": "Empty",
@@ -94,6 +95,12 @@ def build_api(cell):
     to_gen = [f.proto.name for f in (svc, more, types)]
     if "fq_otherpkg" in kinds:
         files = [shared] + files
+    if "rel_nested_shadowed" in kinds:
+        # a top-level package named like the outer message: the dotted name also reads as a fully-qualified one
+        shadow = File("Outer/outer.proto", "Outer")
+        shadow.message("InnerResp").field("w", 1, "string")
+        shadow.message("InnerMeta").field("w", 1, "string")
+        files = [shadow] + files
     return apigen.request(files, to_generate=to_gen, parameter=cell.get("parameter", "transport=grpc+rest")), pkg, pypkg
 
 
@@ -202,10 +209,10 @@ def oracle_resolve(req, pkg, name):
         universe.update(all_messages(fp))
     if not name or name.startswith("."):
         return None
-    for cand in ([f"{pkg}.{name}", name] if pkg else [name]):
-        if cand in universe:
-            return cand
-    return None
+    found = [cand for cand in ([f"{pkg}.{name}", name] if pkg else [name]) if cand in universe]
+    if len(set(found)) > 1:
+        return None          # two messages answer to the name: the sentence does not say which
+    return found[0] if found else None
 
 
 def py_class_of(req, pypkg, fqn):
@@ -857,7 +864,7 @@ def e2e_cells(ctx, n):
     while len(cells) < n:
         r = env.rng("C08-e2e", i)
         i += 1
-        pool = VALID * 3 + GEN_ONLY + QUIRK + MISSING + UNKNOWN
+        pool = VALID * 3 + MISSING + UNKNOWN
         c = {"pkg_index": r.randrange(len(PACKAGES)), "resp": r.choice(pool), "meta": r.choice(pool),
              "annotated": r.random() < 0.88, "order": r.choice(["types-first", "svc-first"]), "raw_sibling": r.random() < 0.25,
              "types_name": r.choice(["types", "types", "operation", "operation_async"]), "ops_http": r.random() < 0.3}
